@@ -6,6 +6,7 @@ import (
 	"fmt"
 	"strings"
 	"time"
+	"unicode/utf8"
 
 	"verif/internal/drv"
 	"verif/internal/fw"
@@ -97,9 +98,40 @@ func pathHosts() []paramHost {
 	}
 }
 
+// c17Chars: every ASCII character but LF / CR, and one valid UTF-8 character for every (lead byte,
+// second byte) pair.
+func c17Chars() []string {
+	var out []string
+	for b := 1; b < 0x80; b++ {
+		if b != '\n' && b != '\r' {
+			out = append(out, string([]byte{byte(b)}))
+		}
+	}
+	for lead := 0xC2; lead <= 0xF4; lead++ {
+		for cont := 0x80; cont <= 0xBF; cont++ {
+			bs := []byte{byte(lead), byte(cont)}
+			if lead >= 0xE0 {
+				bs = append(bs, 0x85) // a later continuation byte that is NEL / NBSP in Latin-1
+			}
+			if lead >= 0xF0 {
+				bs = append(bs, 0xA0)
+			}
+			if utf8.Valid(bs) {
+				out = append(out, string(bs))
+			}
+		}
+	}
+	return out
+}
+
 func bareOK(s string) bool {
 	if s == "" || s[0] == '"' || strings.ContainsAny(s, " \t#") {
 		return false
+	}
+	for i := 0; i < len(s); i++ {
+		if s[i] < 0x20 || s[i] == 0x7f {
+			return false // control characters: only the quoted spelling is judged
+		}
 	}
 	if strings.HasPrefix(s, "//") || strings.HasPrefix(s, "/*") {
 		return false // would start an annotation
@@ -150,7 +182,7 @@ func runC17(c *fw.Ctx) {
 	}
 
 	// end to end, quoted and bare
-	rec("", maxLen, func(s string) {
+	e2e := func(s string) {
 		if c.Expired() {
 			return
 		}
@@ -214,7 +246,15 @@ func runC17(c *fw.Ctx) {
 				c.Sample(h.name, 1, map[string]interface{}{"host": h.name, "source": q, "catalog_value": got})
 			}
 		}
-	})
+	}
+	rec("", maxLen, e2e)
+	// every byte: each ASCII character except the line ends, and every UTF-8 lead byte with every
+	// continuation byte in second position (all of U+0080..U+07FF, one character per (lead,
+	// continuation) pair of the 3- and 4-byte forms), inside a value and at its start
+	for _, ch := range c17Chars() {
+		e2e("a" + ch + "b")
+		e2e(ch + "a")
+	}
 
 	// malformed forms
 	hosts := append(paramHosts(), pathHosts()...)
